@@ -412,6 +412,23 @@ func (w *world) drNotExportedKind(d *drSpec, ns string, from []string) string {
 	return "dr-not-exported"
 }
 
+// policyOwner: the DestinationRule a connection limit was written in (top level, port level or a subset).
+func (w *world) policyOwner(v int) *drSpec {
+	var owner *drSpec
+	for i := range w.drs {
+		d := &w.drs[i]
+		if d.tp != nil && (d.tp.pool == v || d.tp.plPool == v) {
+			owner = d
+		}
+		for _, sn := range d.subsets {
+			if sn.pool == v {
+				owner = d
+			}
+		}
+	}
+	return owner
+}
+
 // fromKeys: the names of the rules merged into the consolidated rules of one hostname of a scope.
 func fromKeys(sc *model.SidecarScope, hostname string) []string {
 	var out []string
@@ -568,7 +585,11 @@ func (w *world) delegateDoc(root *vsSpec, ref *[2]string) *vsSpec {
 }
 
 // httpRoutesDoc: the http routes of a VirtualService with its exported delegates folded in.
-func (w *world) httpRoutesDoc(v *vsSpec) []httpSpec {
+func (w *world) httpRoutesDoc(v *vsSpec) []httpSpec { return w.httpRoutesDocOpt(v, true) }
+
+// httpRoutesDocOpt: with conflicts = false the match of the delegating route is ignored (used to tell a kept
+// conflicting delegate route from a delegate that is not exported at all).
+func (w *world) httpRoutesDocOpt(v *vsSpec, conflicts bool) []httpSpec {
 	var out []httpSpec
 	res := func(owner *vsSpec, hs []httpSpec) {
 		for _, h := range hs {
@@ -589,6 +610,8 @@ func (w *world) httpRoutesDoc(v *vsSpec) []httpSpec {
 			for _, dr := range d.http {
 				if m, ok := mergedSourcesDoc(h.srcNs, dr.srcNs); ok {
 					dr.srcNs = m
+					kept = append(kept, dr)
+				} else if !conflicts {
 					kept = append(kept, dr)
 				}
 			}
@@ -1003,6 +1026,40 @@ func (w *world) oracleOneScope(sc *model.SidecarScope, ns string, gateway bool, 
 					return v
 				}
 			}
+			// provenance of the consolidated traffic policy: every connection limit in it (top level, port level,
+			// subsets; the generator gives every place its own number) was written in one of the rules the
+			// consolidated rule says it was merged from - a rule outside `from` shapes nothing
+			from := map[string]bool{}
+			for _, g := range model.VerifC07From(c) {
+				from[g.Namespace+"/"+g.Name] = true
+			}
+			rule := c.GetRule().Spec.(*networking.DestinationRule)
+			var limits []int
+			if mc := rule.GetTrafficPolicy().GetConnectionPool().GetTcp().GetMaxConnections(); mc != 0 {
+				limits = append(limits, int(mc))
+			}
+			for _, pl := range rule.GetTrafficPolicy().GetPortLevelSettings() {
+				if mc := pl.GetConnectionPool().GetTcp().GetMaxConnections(); mc != 0 {
+					limits = append(limits, int(mc))
+				}
+			}
+			for _, sub := range rule.GetSubsets() {
+				if mc := sub.GetTrafficPolicy().GetConnectionPool().GetTcp().GetMaxConnections(); mc != 0 {
+					limits = append(limits, int(mc))
+				}
+			}
+			for _, v := range limits {
+				owner := w.policyOwner(v)
+				if owner == nil {
+					return "dr-policy-of-unknown-rule " + strconv.Itoa(v)
+				}
+				if !from[owner.ns+"/"+owner.name] {
+					if !w.drVisibleDoc(owner, ns) {
+						return "dr-not-exported policy-outside-from " + strconv.Itoa(v) + " " + owner.ns + "/" + owner.name + " " + ns
+					}
+					return "dr-policy-from-rule-outside-from " + strconv.Itoa(v) + " " + owner.ns + "/" + owner.name + " " + ns
+				}
+			}
 		}
 	}
 	// completeness: a visible service matched by a port-unrestricted egress host is delivered,
@@ -1119,10 +1176,36 @@ func (w *world) oracleQuery(t []string) string {
 				for _, d := range resolveDests(v, v.tcp) {
 					allowed[d.host] = true
 				}
+				loose := map[string]bool{}
+				for _, h := range w.httpRoutesDocOpt(v, false) {
+					for _, d := range h.dests {
+						loose[d.host] = true
+					}
+				}
 				for _, h := range mergedDests(mv.Spec.(*networking.VirtualService)) {
+					if !allowed[h] && loose[h] {
+						// the delegate is exported, but this route of it does not fit under the root route's match
+						return "delegate-route-with-conflicting-match-kept " + v.ns + "/" + v.name + " " + wire.Enc(h)
+					}
 					if !allowed[h] {
 						return "delegate-not-exported " + v.ns + "/" + v.name + " " + wire.Enc(h)
 					}
+				}
+				// the merged match of every route: what the root route and the delegate route both admit
+				var want []string
+				for _, h := range w.httpRoutesDoc(v) {
+					want = append(want, encItems(h.srcNs, "|"))
+				}
+				var got []string
+				for _, h := range mv.Spec.(*networking.VirtualService).Http {
+					var srcs []string
+					for _, m := range h.Match {
+						srcs = append(srcs, m.SourceNamespace)
+					}
+					got = append(got, encItems(srcs, "|"))
+				}
+				if !v.gwSem && strings.Join(got, ";") != strings.Join(want, ";") {
+					return "merged-route-matches-differ-from-documented " + v.ns + "/" + v.name + " " + wire.Enc(strings.Join(got, ";")) + " " + wire.Enc(strings.Join(want, ";"))
 				}
 			}
 		case t[0] == "xds" && len(t) >= 3:
